@@ -968,9 +968,13 @@ func (m *Machine) builtin(e *N, name string, a []Value) Value {
 		if len(list) == 0 {
 			bad("nothing to compare")
 		}
-		best := m.bnum(e, name, list[0])
-		for _, v := range list[1:] {
-			f := m.bnum(e, name, v)
+		// every argument must be a number whatever the others are: the kinds are checked first
+		nums := make([]float64, len(list))
+		for i, v := range list {
+			nums[i] = m.bnum(e, name, v)
+		}
+		best := nums[0]
+		for _, f := range nums[1:] {
 			if math.IsNaN(f) || math.IsNaN(best) {
 				m.unspec("min/max with NaN")
 			}
